@@ -1,6 +1,7 @@
 import RosuModel.Lemmas.ManiaPatternTotal
 import RosuModel.Lemmas.ManiaPatternSafeLoop
 import RosuModel.Lemmas.ManiaPattern8K
+import RosuModel.Lemmas.ManiaPattern8KPath
 
 /-!
 # C05 (mania pattern generators) — which checked operations can fail, and when they cannot
@@ -181,5 +182,38 @@ theorem convert_never_fails_7K1_without_sliders {A : PArith F} (hP : ProbLaw A) 
     (seed : Int) (os : List (ObjIn F)) (hwf : ∀ o ∈ os, NoSlider8 o) :
     OkOrFuel (convertLoop A 8 cd fuel (ConvSt.init seed) os) :=
   convertLoop_safe_8K_no_sliders hP cd fuel os _ Inv8.empty hwf
+
+/-- **the path generator preserves `Inv8`** (7K+1, every slider branch): whatever `generate()` leaves
+as `last_values.pattern` — the core pattern if it has one note, else its end-time part — satisfies
+`Inv8` again.  No hypothesis on the slider's times: the time-ordered branches are only reached with
+`segment_duration > 90`, which gives the strict monotonicity that bounds the end-time part. -/
+theorem path_generator_preserves_inv8 {A : PArith F} (hP : ProbLaw A) (g : PathIn F) (h8 : g.total = 8)
+    (hprev : Inv8 g.prev) (s : Osu) (r : List Pat × Osu) (h : pathGenerate A g s = .ok r) :
+    Inv8 (r.1.getLast?.getD g.prev) :=
+  pathGenerate_inv8 hP g h8 hprev s r h
+
+/-- **the end-time generator preserves `Inv8`**: the loop does not store a spinner's pattern, so the
+previous pattern (and its invariant) is unchanged -/
+theorem end_generator_preserves_inv8 {A : PArith F} (hP : ProbLaw A) (cd : F) (fuel : Nat) (st : ConvSt)
+    (sample : Nat) (hold short : Bool) (hprev : Inv8 st.prev) (r : Emitted × ConvSt)
+    (h : convertStep A 8 cd fuel st (.spinner sample hold short) = .ok r) : Inv8 r.2.prev :=
+  convertStep_inv8_all hP cd fuel st (.spinner sample hold short) hprev trivial r h
+
+/-- **7K+1: the whole conversion never fails** (every object kind, from the initial state), with NO
+hypothesis on intermediate patterns.  Hypotheses are on the inputs only: sliders have well-formed
+times (`ObjWf`, as for every other column count) and — the single named hypothesis — circles do not
+carry the `MIRROR` flag (`NoMirror8`). -/
+theorem convert_never_fails_7K1 {A : PArith F} (hP : ProbLaw A) (cd : F) (fuel : Nat)
+    (seed : Int) (os : List (ObjIn F)) (hwf : ∀ o ∈ os, ObjWf o ∧ NoMirror8 o) :
+    OkOrFuel (convertLoop A 8 cd fuel (ConvSt.init seed) os) :=
+  convertLoop_safe_8K hP cd fuel os _ Inv8.empty hwf
+
+/-- non-vacuity: a slider and a circle satisfy the hypotheses -/
+example : (ObjWf (F := Int) (.slider 100 0 0 3 0 300 100 [])) ∧ NoMirror8 (F := Int) (.circle 100 0 0) := by
+  refine ⟨?_, ?_⟩
+  · show SliderWf 3 0 300 100
+    constructor <;> decide
+  · show has 0 MIRROR = false
+    decide
 
 end Rosu.C05d
